@@ -3,7 +3,9 @@
 Caught (VIOLATION): M1 lift one frame too high, M2 ignore agg context, M3 drop a Let keep the Refs, M4 wrong binding for a later
 occurrence, M6 agg binding printed as scan AggLet, M7 StreamFold forgets its accumulator binding, M8 StreamAgg.free_vars fix reverted,
 M9 AggFilter does not rebind the aggregation capability.  Benign by design (no violation): M5 structural instead of object identity in
-the analysis pass only (nothing is lifted any more), M10 a lifted node is re-printed at every occurrence."""
+the analysis pass only (nothing is lifted any more), M10 a lifted node is re-printed at every occurrence.
+Scan scope: S1 scan binding printed as agg AggLet, S2 scan arguments treated as agg scope, S3 TableMapRows without scan bindings,
+S4 ApplyScanOp arguments not a scan context."""
 import sys
 m, wt = sys.argv[1], sys.argv[2]
 R = wt + '/hail/python/hail/ir/renderer.py'
@@ -42,6 +44,18 @@ elif m == 'M9': # AggFilter does not rebind the aggregation capability: aggregat
            "    def renderable_uses_scan_context(self, i: int):\n        return i == 0 and self.is_scan\n\n    @classmethod\n    def uses_agg_capability(cls) -> bool:\n        return True\n\n\nclass AggExplode", 1)
 elif m == 'M10': # the print pass forgets that a lifted node was already printed: AggLet/Let emitted per occurrence (benign)
     sub(R, "                visited[id(child)] = child\n", "", 1)
+elif m == 'S1': # a scan-scope binding is printed as an agg-scope AggLet
+    sub(R, "child_builder = [f'(AggLet {name} True ']", "child_builder = [f'(AggLet {name} False ']", 1)
+elif m == 'S2': # both passes forget that an ApplyScanOp / scan AggLet argument is in the SCAN scope
+    sub(R, "                child_scan_scope = True\n", "                child_scan_scope = False\n", 1)
+    sub(R, "                    child_scan_scope = True\n", "                    child_scan_scope = False\n", 1)
+elif m == 'S3': # TableMapRows declares no scan bindings
+    T = wt + '/hail/python/hail/ir/table_ir.py'
+    t = open(T).read(); old = "    def renderable_scan_bindings(self, i, default_value=None):\n        return self.child.typ.row_env(default_value) if i == 1 else {}\n"
+    assert t.count(old) >= 1
+    open(T, 'w').write(t.replace(old, "    def renderable_scan_bindings(self, i, default_value=None):\n        return {}\n", 1))
+elif m == 'S4': # the seq-arguments of ApplyScanOp are not recognised as scan context
+    sub(I, "    def renderable_uses_scan_context(self, i: int):\n        return i == 1\n", "    def renderable_uses_scan_context(self, i: int):\n        return False\n", 1)
 else:
     raise SystemExit("unknown mutant")
 print("mutated", m)
